@@ -72,7 +72,7 @@ func ruleCommitOrder(c *Ctx) {
 		// (through the manager's one-line wrapper, or the configuration's own beginPatch)
 		begin := F(P.Method(plc, "ruleConfig", "beginPatch"))
 		isBegin := resultOfCall(begin)
-		if w := P.methodOpt(plc, "RuleManager", "beginPatch"); w != nil {
+		if w := P.methodOptR(plc, "RuleManager", "beginPatch"); w != nil {
 			isBegin = orPred(isBegin, resultOfCall(F(w)))
 		}
 		a := callArgs(s.Instr.Common())
@@ -583,6 +583,7 @@ func init() {
 			ruleInitializeOrder(c)
 			ruleFreshManagerPerTerm(c)
 			ruleLoadedRecordsAreDistinct(c)
+			ruleGroupDefaultness(c)
 		})
 	})
 }
@@ -682,4 +683,46 @@ func returnsFresh(fn *ssa.Function, idx int) bool {
 		}
 	}
 	return n > 0
+}
+
+// ruleGroupDefaultness: a rule group is "default" — not persisted, not listed —
+// only when it carries no configuration at all: index 0 and no override. A
+// group with an override that counts as default is applied to the served rules
+// but never saved.
+func ruleGroupDefaultness(c *Ctx) {
+	P := c.P
+	rule := c.Prop + "/load-and-save-keys"
+	fn := P.Method(plc, "RuleGroup", "isDefault")
+	idx := P.Field(plc, "RuleGroup", "Index")
+	ov := P.Field(plc, "RuleGroup", "Override")
+	okT, detail := true, ""
+	for _, zeroIdx := range []bool{true, false} {
+		for _, override := range []bool{true, false} {
+			want := zeroIdx && !override
+			z, o := zeroIdx, override
+			got, okE := ordEval(fn, nil, ordAssume{
+				cmp: func(x, y ssa.Value) (int, bool) {
+					if isLoadOf(x, idx) {
+						if k, isC := constInt(y); isC && k == 0 {
+							if z {
+								return 0, true
+							}
+							return 1, true
+						}
+					}
+					return 0, false
+				},
+				val: func(v ssa.Value) (ordVal, bool) {
+					if isLoadOf(v, ov) {
+						return ordVal{b: o, kind: 'b'}, true
+					}
+					return ordVal{}, false
+				}}, 2)
+			if !okE || got.kind != 'b' || got.b != want {
+				okT = false
+				detail = fmt.Sprintf("index zero=%v override=%v: answers %v (evaluated: %v), want %v", z, o, got.b, okE, want)
+			}
+		}
+	}
+	c.Check(okT, rule, "truth table of "+fnName(fn), "default ⇔ index == 0 ∧ no override (all four combinations)", P.pos(fn.Pos()), detail)
 }
